@@ -59,6 +59,7 @@ class SState(object):
         self.set = rruleset(cache=cache)
         self.rules = {}
         self.members = {'rrule': [], 'rdate': [], 'exrule': [], 'exdate': []}
+        self.live = None            # one iterator kept alive across later operations: [iterator, items taken, mutated since?, finished]
 
     def rule(self, name):
         if name not in self.rules:
@@ -89,6 +90,9 @@ def ops_menu(rules, dates, thorough):
         ops.append(('rdate', d))
         ops.append(('exdate', d))
     ops += [('take', 1), ('take', 3), ('take', 11), ('list',), ('count',)]
+    # a live iterator that straddles later mutations: what IT yields afterwards is not specified, but finishing it
+    # must not disturb any later iteration or query
+    ops += [('live-start', 1), ('live-drain',)]
     for t in PROBES[:3 if thorough else 2]:
         ops += [('after', t), ('before', t), ('between', t)]
     ops += [('index', 0), ('index', -1), ('contains', PROBES[0])]
@@ -102,11 +106,29 @@ def step(st, op):
         if k in ('rrule', 'exrule'):
             getattr(s, k)(st.rule(op[1]))
             st.members[k].append(op[1])
+            if st.live is not None:
+                st.live[2] = True
             return ('ok', None)
         if k in ('rdate', 'exdate'):
             getattr(s, k)(make_date(op[1]))
             st.members[k].append(op[1])
+            if st.live is not None:
+                st.live[2] = True
             return ('ok', None)
+        if k == 'live-start':
+            it = iter(s)
+            got = list(itertools.islice(it, op[1]))
+            st.live = [it, len(got), False, False]
+            return ('live', got)
+        if k == 'live-drain':
+            if st.live is None or st.live[3]:
+                return ('live', None)
+            try:
+                rest = list(st.live[0])
+            except Exception as e:
+                rest = 'EXC:' + type(e).__name__
+            st.live[3] = True
+            return ('live', rest)
         if k == 'take':
             return ('ok', list(itertools.islice(iter(s), op[1])))
         if k == 'list':
@@ -135,6 +157,8 @@ def model(E, op):
     k = op[0]
     if k in ('rrule', 'exrule', 'rdate', 'exdate'):
         return ('ok', None)
+    if k in ('live-start', 'live-drain'):
+        return None               # judged in check(): only when no mutation happened in between
     if k == 'take':
         return ('ok', E[:op[1]])
     if k == 'list':
@@ -187,6 +211,10 @@ def eval_root(case):
                 n = sum(m.count(op[1]) for m in st.members.values())
                 if n >= 2:
                     continue
+            if op[0] == 'live-start' and st.live is not None:
+                continue
+            if op[0] == 'live-drain' and (st.live is None or st.live[3]):
+                continue
             out.append(op)
         return out
 
@@ -197,6 +225,13 @@ def eval_root(case):
         E = st.expected()
         exp = model(E, op)
         out = []
+        if exp is None:
+            if op[0] == 'live-start':
+                exp = ('live', E[:op[1]])
+            elif st.live is not None and ans[1] is not None and not st.live[2]:
+                exp = ('live', E[st.live[1]:])         # never mutated since it started: it must see the rest
+            else:
+                exp = ans                               # a straddling iterator's own output is not specified
         if ans != exp:
             out.append({'kind': 'set-disagrees', 'op': op, 'got': ans, 'expected': exp,
                         'members': {k: list(v) for k, v in st.members.items()}, 'cache': cache})
@@ -229,7 +264,8 @@ def eval_root(case):
             cm = (len(getattr(cached_member, '_cache', None) or ()), bool(getattr(cached_member, '_cache_complete', False)))
         return (tuple(tuple(sorted(st.members[k])) for k in ('rrule', 'rdate', 'exrule', 'exdate')),
                 None if c is None else len(c), bool(getattr(s, '_cache_complete', False)),
-                getattr(s, '_len', None), cm)
+                getattr(s, '_len', None), cm,
+                None if st.live is None else (st.live[1], st.live[2], st.live[3]))
     try:
         res = history.bfs(fresh, ops_for, do_step, check, canon, depth - len(first_ops), max_states=300000)
     except Capped:
@@ -290,6 +326,10 @@ def run(ctx):
         roots.append((cache, (), 1, pool))                 # the empty set and its single operations
         for op in menu:
             roots.append((cache, (op,), depth, pool))       # BFS below each first operation (parallel roots)
+    for cache in (False, True):
+        for r in ('daily12c', 'daily6'):
+            # a live iterator over a non-trivial set, then everything up to three more operations
+            roots.append((cache, (('rrule', r), ('live-start', 1)), 5, pool))
     if ctx.thorough:
         small = (('daily6', 'alt4', 'daily12c'), ('d_occ', 'd_off', 'd_occ2'))
         for cache in (False, True):
